@@ -80,8 +80,12 @@ def repo_head():
 # escapes to the caller is visible and the call is repeated without the
 # filter, one that is swallowed inside the library and changes the answer is
 # caught by the ordinary oracle.
+# 'debug-logging': the root logger (hence every logger of the library) is
+# enabled down to DEBUG, as after logging.basicConfig(level=logging.DEBUG) in
+# an application: code behind `logger.isEnabledFor(DEBUG)` runs.
 VARIANTS = [('optimised', {'PYTHONOPTIMIZE': '1'}),
-            ('warnings-as-errors', {'VMON_WARNINGS': 'error'})]
+            ('warnings-as-errors', {'VMON_WARNINGS': 'error'}),
+            ('debug-logging', {'VMON_LOGGING': 'debug'})]
 
 
 def technique_of(mod):
@@ -115,6 +119,7 @@ def run_one_shard(prop, tier, seed, shard, nshards, timeout, outdir,
     env = dict(os.environ)
     env.pop('PYTHONOPTIMIZE', None)
     env.pop('VMON_WARNINGS', None)
+    env.pop('VMON_LOGGING', None)
     env.update(variant_env(variant))
     t0 = time.time()
     try:
